@@ -6,6 +6,7 @@
 //! Values are even integers below 2^40 (exact in f64, every division by 4 down to the maximum
 //! depth is exact), thresholds are integers on, next to and between the cumulative sums.
 use crate::common::*;
+use moc::deser::fits::multiordermap::from_fits_multiordermap;
 use moc::deser::fits::skymap::from_fits_skymap;
 use moc::elem::valuedcell::valued_cells_to_moc_with_opt;
 use moc::storage::u64idx::U64MocStore;
@@ -149,6 +150,114 @@ fn skymap_fits(depth: u8, pix: &[u64]) -> Vec<u8> {
   b
 }
 
+// ------------------------------------------------------------------ multi-order-map front end
+/// a multi-order map as a FITS file (UNIQ / PROBDENSITY columns), the format from_fits_multiordermap reads
+fn mom_fits(depth: u8, rows: &[(u64, f64)]) -> Vec<u8> {
+  let mut b = Vec::new();
+  for (k, v) in [("SIMPLE", "T"), ("BITPIX", "8"), ("NAXIS", "0"), ("EXTEND", "T")] {
+    b.extend(card(k, v));
+  }
+  b.extend(format!("{:<80}", "END").into_bytes());
+  pad2880(&mut b, b' ');
+  for (k, v) in [
+    ("XTENSION", "'BINTABLE'".to_string()),
+    ("BITPIX", "8".to_string()),
+    ("NAXIS", "2".to_string()),
+    ("NAXIS1", "16".to_string()),
+    ("NAXIS2", rows.len().to_string()),
+    ("PCOUNT", "0".to_string()),
+    ("GCOUNT", "1".to_string()),
+    ("TFIELDS", "2".to_string()),
+    ("TTYPE1", "'UNIQ    '".to_string()),
+    ("TFORM1", "'K       '".to_string()),
+    ("TTYPE2", "'PROBDENSITY'".to_string()),
+    ("TFORM2", "'D       '".to_string()),
+    ("PIXTYPE", "'HEALPIX '".to_string()),
+    ("ORDERING", "'NUNIQ   '".to_string()),
+    ("COORDSYS", "'C       '".to_string()),
+    ("MOCORDER", depth.to_string()),
+  ] {
+    let mut c = if v.starts_with('\'') { format!("{:<8}= {:<20}", k, v) } else { format!("{:<8}= {:>20}", k, v) };
+    while c.len() < 80 {
+      c.push(' ');
+    }
+    b.extend(c.into_bytes());
+  }
+  b.extend(format!("{:<80}", "END").into_bytes());
+  pad2880(&mut b, b' ');
+  for (u, d) in rows {
+    b.extend(u.to_be_bytes());
+    b.extend(d.to_be_bytes());
+  }
+  pad2880(&mut b, 0);
+  b
+}
+
+/// The multi-order-map reader is an adapter: it turns every row (uniq, density) into (uniq, value,
+/// density) with value = density x sub-cells x area of a deepest cell, and hands the list to the
+/// selection.  Whatever the map (normalised or not: the total is anything from a fraction of 1 to
+/// tens of units) and the thresholds (0, 1, the total, beyond it, anywhere between), the MOC it
+/// returns must be the one the selection returns on the triples computed the same way.
+fn mom_cases(rep: &mut Report, rng: &mut Rng, n: u64) {
+  for _ in 0..n {
+    let dm = rng.range(0, 3) as u8;
+    let cells = gen_map(rng, dm);
+    if cells.is_empty() {
+      continue;
+    }
+    let apc = (std::f64::consts::PI / 3.0) / (1u64 << ((dm as u32) << 1)) as f64;
+    // densities: the integer value of the cell scaled so that the total is < 1, ~ 1 or >> 1
+    let scale = *rng.pick(&[1.0f64, 0.25, 0.01, 3.0]);
+    let total_units: u64 = cells.iter().map(|c| c.v).sum();
+    let norm = if rng.chance(1, 3) { 1.0 / (total_units.max(1) as f64) } else { scale };
+    let rows: Vec<(u64, f64)> = cells
+      .iter()
+      .map(|c| {
+        let nsub = (1u64 << (((dm - c.d) as u32) << 1)) as f64;
+        (c.i + (4u64 << (2 * c.d as u32)), (c.v as f64) * norm / (nsub * apc))
+      })
+      .collect();
+    let triples: Vec<(u64, f64, f64)> = cells
+      .iter()
+      .zip(rows.iter())
+      .map(|(c, (u, dens))| {
+        let nsub = (1u64 << (((dm - c.d) as u32) << 1)) as f64;
+        (*u, dens * nsub * apc, *dens)
+      })
+      .collect();
+    let total: f64 = triples.iter().map(|t| t.1).sum();
+    let picks = [0.0, 1.0, total, total * 1.5, total * 0.5, total * rng.below(1000) as f64 / 1000.0, 0.999_999, 1.000_001, total - 1e-9, -1.0];
+    let a = *rng.pick(&picks);
+    let b = *rng.pick(&picks);
+    let (from, to) = if a <= b { (a, b) } else { (b, a) };
+    let (asc, strict, no_split, rev) = (rng.chance(1, 2), rng.chance(1, 2), rng.chance(1, 2), rng.chance(1, 2));
+    let bytes = mom_fits(dm, &rows);
+    let case = format!("MOMFITS depth={} rows={:?} from={} to={} asc={} strict={} no_split={} reverse={} total={}", dm, rows, from, to, asc, strict, no_split, rev, total);
+    rep.evaluations += 1;
+    rep.count(if total < 0.999 { "mom-fits:total<1" } else if total <= 1.001 { "mom-fits:total~1" } else { "mom-fits:total>1" });
+    let t2 = triples.clone();
+    let direct = catch(move || {
+      let r = valued_cells_to_moc_with_opt(dm, t2, from, to, asc, strict, no_split, rev);
+      r.iter().map(|x| (x.start, x.end)).collect::<Vec<(u64, u64)>>()
+    });
+    let via = catch(move || {
+      from_fits_multiordermap(std::io::BufReader::new(std::io::Cursor::new(bytes)), from, to, asc, strict, no_split, rev)
+        .map(|m| (m.depth_max(), m.moc_ranges().iter().map(|x| (x.start, x.end)).collect::<Vec<(u64, u64)>>()))
+        .map_err(|e| format!("{:?}", e))
+    });
+    match (direct, via) {
+      (Ok(d), Ok(Ok((dd, v)))) => {
+        if v != d || dd != dm {
+          rep.violation("from_fits_multiordermap does not return the selection of its rows", &case, &format!("depth {} {}", dd, ranges_str(&v)), &format!("depth {} {}", dm, ranges_str(&d)), "C20 (the FITS front end hands the map to the selection unchanged) + C20_selection_*");
+        } else if triples.len() >= 2 && from < to {
+          rep.nontrivial(&case);
+        }
+      }
+      (d, v) => rep.violation("from_fits_multiordermap fails on a well-formed multi-order map", &case, &format!("{:?}", v), &format!("{:?}", d.map(|x| ranges_str(&x))), "C20"),
+    }
+  }
+}
+
 /// The sky-map reader feeds the selection with the map's pixels of positive value (it may fuse a run
 /// of CONTIGUOUS pixels of equal value into larger cells).  Family 1: no two contiguous pixels have
 /// the same positive value (equal values only across a null pixel or further apart), so the map
@@ -273,7 +382,7 @@ pub fn run(ctx: &Ctx) -> Report {
   let mut orc = Oracle::spawn();
   let mut rng = Rng::new(ctx.seed);
   let store = U64MocStore::get_global_store();
-  rep.rule = "multi-order maps of 1-8 disjoint cells of mixed depth 0..3 (maximum depth up to 2 levels deeper), even integer values (0 allowed) such that every sub-cell value down to the maximum depth is an integer (f64 arithmetic exact), densities value*4^depth with ties; threshold pairs on, one unit next to, and between the cumulative sums (incl. 0, the total, inside a deepest piece, both inside the same cell) x {ascending, descending} x {strict, non-strict} x {split, no-split} x {direct, reverse descent}; through valued_cells_to_moc_with_opt and U64MocStore::from_valued_cells; IMPLICIT / NESTED sky-map FITS files (depth 0-1, null pixels, equal values on both sides of a null pixel, contiguous runs of equal values) through from_fits_skymap; the output must equal the faithful model's selection and satisfy every clause of the verified checker. non-trivial = from < to and at least 2 cells; distinct = distinct case line".to_string();
+  rep.rule = "multi-order maps of 1-8 disjoint cells of mixed depth 0..3 (maximum depth up to 2 levels deeper), even integer values (0 allowed) such that every sub-cell value down to the maximum depth is an integer (f64 arithmetic exact), densities value*4^depth with ties; threshold pairs on, one unit next to, and between the cumulative sums (incl. 0, the total, inside a deepest piece, both inside the same cell) x {ascending, descending} x {strict, non-strict} x {split, no-split} x {direct, reverse descent}; through valued_cells_to_moc_with_opt and U64MocStore::from_valued_cells; IMPLICIT / NESTED sky-map FITS files (depth 0-1, null pixels, equal values on both sides of a null pixel, contiguous runs of equal values) through from_fits_skymap; multi-order-map FITS files (UNIQ / PROBDENSITY rows, normalised or not: total < 1, ~ 1, >> 1; thresholds 0, 1, the total, beyond it, between) through from_fits_multiordermap, which must return what the selection returns on the same (uniq, value, density) triples; the output must equal the faithful model's selection and satisfy every clause of the verified checker. non-trivial = from < to and at least 2 cells; distinct = distinct case line".to_string();
   let n = ctx.n(6_000, 200_000);
   for _ in 0..n {
     let maxd_req: u8 = rng.range(0, 5) as u8;
@@ -361,6 +470,7 @@ pub fn run(ctx: &Ctx) -> Report {
     }
   }
   skymap_cases(&mut rep, &mut orc, &mut rng, ctx.n(800, 30_000));
+  mom_cases(&mut rep, &mut rng, ctx.n(1_500, 60_000));
   rep.notes.push(format!("oracle calls: {}", orc.calls));
   rep
 }
